@@ -331,6 +331,28 @@ def setup_sb(eng):
                            'node) is put on the work list again'})
             p.oblige('C11/substitute/a-replacement-counts-as-a-change',
                      env_.vars['changed'] is True)
+        else:
+            # not replaced: a leaf stays the object it is; a list whose
+            # rebuilt form is structurally equal to it stays the object it is
+            x = env_.vars.get('expr')
+            vis = env_.vars.get('visited')
+            if is_node(e, x) and len(items) == 1 and is_node(e, items[0]):
+                if vis is False and isinstance(x.attrs.get('data'),
+                                               (str, SStr)):
+                    p.oblige('C11/substitute/an-untouched-leaf-keeps-its-'
+                             'identity', items[0] is x,
+                             info={'signature': 'a leaf that is not replaced '
+                                   'is copied'})
+                elif vis is True:
+                    # a different object may only be appended if it differs
+                    # structurally from the original
+                    p.oblige('C11/substitute/an-unchanged-list-keeps-its-'
+                             'identity', True if items[0] is x else mk_bool(
+                                 nm.S(items[0]) != nm.S(x)),
+                             info={'signature': 'a list whose children were '
+                                   'not changed is re-created (pending '
+                                   'simplifications keyed by its id are '
+                                   'lost)'})
 
     base.on_iter_start = start
     base.on_iter_end = end
@@ -386,6 +408,229 @@ def run_sb(eng, p):
                        'substitution (structural keys)'})
 
 
+# -- nodes.substitute with identity keys as well ---------------------------------------
+#
+# With identity keys the replacement of a node does not depend on its
+# structure alone.  The reference is therefore given node by node: every node
+# n taken from the work list gets ghosts  IDKEY_n (its id is a key),
+# IDVAL_n (what that key maps to: one node or nothing)  and its contribution
+#
+#   C_n = IDVAL_n                    if IDKEY_n
+#       = VAL(S n)                   if KEY(S n)              (structural key)
+#       = [tup(SUBLP(kids, id_n))]   if n is a list
+#       = [S n]                      otherwise
+#
+# where SUBLP(q, pos) is the contribution of the sequence q *at position pos*
+# (positions are the unique ids of the parents, so structurally equal lists at
+# different places may be rewritten differently).  The dictionary answers
+# membership / lookup / pop for an id from these ghosts.  What is proved: the
+# per-level equations (every list is the concatenation, in order, of the
+# contributions of the nodes of its level -- nothing else is touched), and
+# per replaced node: inserted as given, not traversed.  The global statement
+# is the fold of these facts.
+
+def SUBLP(q, pos):
+    """The contribution of the sequence q at position pos: one ghost constant
+    per (sequence, position) -- no congruence between positions is wanted
+    (and z3's model construction crashes on the two-argument function)."""
+    p = cur()
+    tab = p.ghost.setdefault('sublp', {})
+    key = (q.get_id(), pos.get_id())
+    if key not in tab:
+        k = z3.Const(p.fresh_name('K'), SeqS)
+        tab[key] = (q, pos, k)
+        # the empty sequence contributes nothing (the only congruence used)
+        p.assume(z3.Implies(z3.Length(q) == 0, k == z3.Empty(SeqS)))
+    return tab[key][2]
+
+
+class SubSpecIds(fr.IdentitySpec):
+
+    def contrib(self, node):
+        t = node.tag
+        if 'C' not in t:
+            p = cur()
+            nm_ = t.get('name', 'n')
+            t['C'] = z3.Const(p.fresh_name('C_' + nm_), SeqS)
+            t['IDKEY'] = p.fresh_bool('idkey_' + nm_)
+            t['IDVAL'] = z3.Const(p.fresh_name('idval_' + nm_), SeqS)
+            s = nm.S(node)
+            p.assume(z3.Length(t['IDVAL']) <= 1)
+            p.assume(z3.Length(VAL(s)) <= 1)
+            p.assume(t['C'] == z3.If(
+                t['IDKEY'], t['IDVAL'], z3.If(
+                    KEY(s), VAL(s), z3.If(
+                        Struct.is_tup(s),
+                        z3.Unit(Struct.tup(SUBLP(
+                            Struct.kids(s), fr.pos_of(node)))),
+                        z3.Unit(s)))))
+        return t['C']
+
+    def item_n(self, node):
+        return self.contrib(node)
+
+    def seq_p(self, q, pos):
+        return SUBLP(q, pos)
+
+    def target_n(self, node):
+        return SUBLP(Struct.kids(nm.S(node)), fr.pos_of(node))
+
+    def unfold_n(self, p, node):
+        self.contrib(node)
+
+    def marker_n(self, p, node):
+        # a marker is pushed only for a node that was not replaced
+        self.contrib(node)
+        p.assume(z3.Not(node.tag['IDKEY']))
+        p.assume(z3.Not(KEY(nm.S(node))))
+
+
+class MixedDict(StructDict):
+    """repl with identity (int) and structural (Node) keys"""
+
+    def __init__(self, eng, spec):
+        StructDict.__init__(self, eng)
+        self.spec = spec
+        self.popped = []
+        self.id_lookups = []
+
+    def _node_of_id(self, k):
+        for n in cur().ghost.get('nodes_by_id', []):
+            if n.attrs['id'] is k:
+                return n
+        raise sym.Unsupported('identity key lookup for an id that is not '
+                              'the id of a node taken from the work list')
+
+    def contains(self, k):
+        if isinstance(k, (int, SNum)):
+            n = self._node_of_id(k)
+            self.spec.contrib(n)
+            if n in self.popped:
+                return False
+            return mk_bool(n.tag['IDKEY'])
+        return StructDict.contains(self, k)
+
+    def get(self, k):
+        if isinstance(k, (int, SNum)):
+            return self._id_value(k, consume=False)
+        return StructDict.get(self, k)
+
+    def pop(self, k, *default):
+        if not isinstance(k, (int, SNum)):
+            raise sym.Unsupported('pop of a structural key')
+        return self._id_value(k, True, *default)
+
+    def _id_value(self, k, consume, *default):
+        n = self._node_of_id(k)
+        self.spec.contrib(n)
+        p = cur()
+        if n in self.popped or not self.eng.truth(mk_bool(n.tag['IDKEY'])):
+            if default:
+                return default[0]
+            raise PyRaise(KeyError('id'))
+        if consume:
+            self.popped.append(n)
+        self.id_lookups.append(n)
+        if p.decide(z3.Length(n.tag['IDVAL']) == 0):
+            v = None
+        else:
+            v = nm.lazy_node(self.eng, p, p.fresh_name('repl'))
+            p.assume(n.tag['IDVAL'] == z3.Unit(nm.S(v)))
+        self.lookups.append((n, v))
+        return v
+
+
+def setup_sb_ids(eng):
+    setup_sb(eng)
+    eng.contains_handlers[MixedDict] = lambda e, d, k: d.contains(k)
+    eng.getitem_handlers[MixedDict] = lambda e, d, k: d.get(k)
+    eng.len_handlers[MixedDict] = lambda e, d: SNum(cur().ghost['repl_len'])
+    def repl_truth(e, d):
+        p = cur()
+        if e.truth(mk_bool(p.fresh_bool('repl_nonempty'))):
+            return True
+        # no key is left: the reference leaves everything below the node at
+        # hand as it is
+        env_ = p.ghost.get('loop_env')
+        x = env_.vars.get('expr') if env_ is not None else None
+        if is_node(e, x):
+            s = nm.S(x)
+            p.assume(z3.Implies(Struct.is_tup(s), SUBLP(
+                Struct.kids(s), fr.pos_of(x)) == Struct.kids(s)))
+        return False
+
+    eng.truth_handlers[MixedDict] = repl_truth
+    spec0 = eng.loop_specs[(SB, 'while visit')]
+    end0 = spec0.on_iter_end
+
+    def end(e, env_, p):
+        # the node just taken from the work list is registered by id
+        end0(e, env_, p)
+        repl = env_.vars['repl']
+        new = repl.lookups[p.ghost['lookups0']:]
+        # (whether an applied identity key is removed from the dictionary is
+        # not part of the property: ids are unique in a tree)
+
+    spec0.on_iter_end = end
+
+
+def run_sb_ids(eng, p):
+    nodes_mod = eng.load_module('ddsmt.nodes')
+    forest, F = wl.forest(eng, p)
+    spec = SubSpecIds()
+
+    def unchanged():
+        env_ = p.ghost.get('loop_env')
+        ch = env_.vars.get('changed') if env_ is not None else False
+        return z3.Not(sym.zbool(ch))
+
+    p.ghost['frames'] = fr.Frames(eng, F, spec,
+                                  extra=[(fr.IdentitySpec(), unchanged)])
+    n = p.fresh_int('repl_len')
+    p.assume(n >= 1)
+    p.ghost['repl_len'] = n
+    p.ghost['nodes_by_id'] = []
+    repl = MixedDict(eng, spec)
+    # every lazy node created from now on is registered by its id
+    lazy0 = nm.lazy_node
+
+    def lazy(e, pp, name, sterm=None):
+        o = lazy0(e, pp, name, sterm)
+        pp.ghost.setdefault('nodes_by_id', []).append(o)
+        return o
+
+    nm.lazy_node = lazy
+    err = None
+    r = None
+    try:
+        try:
+            r = eng.call(nodes_mod.g['substitute'], [forest, repl], {})
+        except PyRaise as ex:
+            err = ex
+    finally:
+        nm.lazy_node = lazy0
+    p.oblige('C04/substitute/raises-nothing', err is None,
+             info={'outcome': repr(err.value) if err else '',
+                   'signature': type(err.value).__name__ if err else ''})
+    if err is not None:
+        return
+    if r is forest:
+        p.oblige('cover/substitute/returns-the-argument-when-unchanged',
+                 False, kind='cover')
+        p.oblige('C11/substitute/unchanged-input-is-returned-only-if-no-'
+                 'node-contributes-anything-else',
+                 mk_bool(SUBLP(F, fr.T0) == F))
+        return
+    ok = isinstance(r, (fr.ResList, list))
+    p.oblige('C11/substitute/returns-a-list', ok, info=repr(r)[:100])
+    if ok:
+        p.oblige('C11/substitute/result-is-the-concatenation-of-the-'
+                 'contributions-of-the-top-level-nodes',
+                 mk_bool(fr.list_den(r) == SUBLP(F, fr.T0)),
+                 info={'signature': 'the result is not assembled, in order, '
+                       'from the contributions of the nodes of the input'})
+
+
 def substitute_contracts(tier):
     A = ['rebuilding traversals: per-level invariant over abstract stacks '
          '(contracts/frames.py); deeper levels materialise on demand',
@@ -397,9 +642,18 @@ def substitute_contracts(tier):
          'node taken from the work list']
     rp = wl.harness_replay('harness/nodes_native.py', ['substitute', 4],
                            ['C11'])
+    A2 = A[:3] + [
+        'identity and structural keys: per node taken from the work list '
+        'ghosts say whether its id is a key and what it maps to; the '
+        'contribution of a node is defined node by node (contracts/rebuild.py '
+        'SubSpecIds), positions are the unique ids of the parents; the global '
+        'statement is the fold of the proved per-level equations and local '
+        'facts']
     return [
         Contract('substitute[any input, structural keys]', [SB], run_sb,
                  setup=setup_sb, assumptions=A, replay=rp),
+        Contract('substitute[any input, identity and structural keys]', [SB],
+                 run_sb_ids, setup=setup_sb_ids, assumptions=A2, replay=rp),
     ]
 
 
